@@ -374,7 +374,7 @@ pub fn c10(o: &Opts, t: &mut Tracer) -> Value {
                                     }
                                     let rq = RqCfg {
                                         method: m.to_string(), ver10, expect: *hs != "none" && *hs != "stray100", connclose: *rconn == "close" || *rconn == "two",
-                                        despite: false, framing: if body_m { ["default", "cl2", "chunked"][(n % 3) as usize].into() } else { "default".into() },
+                                        despite: false, framing: if body_m { ["default", "cl2", "chunked", "cl0"][((n / 3) % 4) as usize].into() } else { "default".into() },
                                         conn_other: if *rconn == "keepalive" || *rconn == "two" { Some("keep-alive") } else { None },
                                     };
                                     let early = match *hs {
@@ -454,12 +454,18 @@ pub fn c11(o: &Opts, t: &mut Tracer) -> Value {
                         if o.quick() && (give_up_at + variant + ki) % 3 != (o.seed % 3) as usize && give_up_at < total.saturating_sub(3) && give_up_at > 2 {
                             continue;
                         }
-                        let method = ["POST", "PUT", "PATCH"][(give_up_at + round) % 3];
-                        if ver10 && method != "POST" {
+                        // bodiless methods take part through send-body-despite-method
+                        let method = ["POST", "PUT", "PATCH", "GET", "POST", "DELETE", "PUT"][(give_up_at + round) % 7];
+                        let despite = matches!(method, "GET" | "DELETE");
+                        if ver10 && !matches!(method, "POST" | "GET") {
                             continue;
                         }
-                        let rq = RqCfg { method: method.into(), ver10, expect: true, connclose: false, despite: false,
-                                         framing: ["default", "cl2", "chunked"][(variant + round) % 3].into(), conn_other: None };
+                        if despite {
+                            t.class("c11:despite-method");
+                        }
+                        let connclose = (give_up_at + variant + round) % 3 == 0;
+                        let rq = RqCfg { method: method.into(), ver10, expect: true, connclose, despite,
+                                         framing: ["default", "cl2", "chunked", "cl0"][(variant + give_up_at / 2 + round) % 4].into(), conn_other: None };
                         let fin = random_fin(&mut rng);
                         let mut sim = match Sim::new(t, rq, Some(early.clone()), give_up_at, "c11") {
                             Some(s) => s,
@@ -467,6 +473,9 @@ pub fn c11(o: &Opts, t: &mut Tracer) -> Value {
                         };
                         histories += 1;
                         t.sig(format!("c11/{}/{}/{}/{}", kind, variant, ver10, give_up_at));
+                        if despite {
+                            sim.op_despite(t);
+                        }
                         sim.op_proceed(t);
                         sim.op_sr_write(t, true);
                         sim.op_proceed(t);
@@ -493,6 +502,19 @@ pub fn c11(o: &Opts, t: &mut Tracer) -> Value {
                             t.class(&format!("c11:{}", cls));
                         }
                         let _ = consumed;
+                        // a caller that polls once more before asking can_keep_await_100(): a refusal stays a refusal,
+                        // consumes nothing and changes nothing, however often it is looked at
+                        if early.is_refusal() && give_up_at >= total && (variant + give_up_at + round) % 2 == 0 {
+                            if let FlowBox::Await100(f) = &sim.fb {
+                                if !f.can_keep_await_100() {
+                                    t.class("c11:looked-again-after-refusal");
+                                    for _ in 0..(1 + (variant + round) % 4) {
+                                        let cls = classify_prefix(&early, total);
+                                        sim.try_read_100_bytes(t, cls, &early.bytes[..total], total);
+                                    }
+                                }
+                            }
+                        }
                         // continue to the very end on whichever path the flow takes
                         sim.op_proceed(t);
                         let mut guard = 0;
